@@ -625,7 +625,7 @@ func main() {
 	flag.Parse()
 	_ = nshard
 	r := res.New("C10")
-	r.Rule = "scripts over {Set zero, Set past, Set near(+2..20ms), Set far(+1h), Idle 275ms, Deliver, Read, Park-then-{past,near,deliver,near+zero+deliver,far+deliver}} on six subjects (packetio.Buffer, dpipe, udp.Conn over loopback, udp.Conn whose listener has been closed, vnet UDPConn through a router, Bridge endpoint with a Tick loop); oracle: timeout legal iff a non-zero deadline in force during the read had passed; data illegal iff the deadline had observably passed before the call (set in the past, or >=200ms ago with a canary timer fired); a read that must be released (confirmed data / deadline passed >1s ago + canary) and is parked in the subject's Read (3 samples) is a violation; distinct = (subject, deadline kind, data pending, outcome) cells"
+	r.Rule = "scripts over {Set zero, Set past, Set near(+2..20ms), Set far(+1h), Idle 275ms, Deliver, Read, Park-then-{past,near,deliver,near+zero+deliver,far+deliver}} on six subjects (packetio.Buffer, dpipe, udp.Conn over loopback, udp.Conn whose listener has been closed, vnet UDPConn through a router, Bridge endpoint with a Tick loop); oracle: timeout legal iff a non-zero deadline in force during the read had passed; data illegal iff the deadline had observably passed before the call (set in the past, or >=200ms ago with a canary timer fired); a read that must be released (confirmed data / deadline passed >1s ago + canary) and is parked in the subject's Read (3 samples) is a violation; plus, on packetio.Buffer and dpipe, a phase that extends or clears a 300 us deadline at instants swept across its expiry and then reads a delivered message (a timeout is illegal however the race went); distinct = (subject, deadline kind, data pending, outcome) cells"
 	r.Assumptions = []string{"interval reasoning on stamps taken before the call and after the return; scheduling delay can only make a legal timeout look later, never earlier", "reads that start within 200ms after a near deadline are unconstrained (expiry is delivered by a runtime timer)"}
 	if *replay != "" {
 		b, _ := os.ReadFile(*replay)
@@ -684,5 +684,83 @@ func main() {
 			}
 		}
 	}
+	// extend / clear a deadline right at the moment it expires (the timer has fired, its callback may not have run yet)
+	iters := 1500
+	if *tier == "thorough" {
+		iters = 12000
+	}
+	for _, sj := range []string{"buffer", "dpipe"} {
+		r.Eval(1)
+		if key, d := raceExtend(sj, iters, r); key != "" {
+			r.Violate(key, d, map[string]interface{}{"subject": sj, "phase": "extend-at-expiry", "iterations": iters})
+		} else if d != "" {
+			r.Inconc(sj + ": " + d)
+		}
+	}
 	r.Write(*out)
+}
+
+// raceExtend: a 300 us read deadline is extended by an hour (or cleared) at an instant swept from 10 us before to 190 us
+// after its expiry; then a message is delivered and read. The deadline in force when that read is called is an hour
+// away (or none), so the read must return the message; a timeout is a violation however the race went. Afterwards a
+// short deadline without data must still release a read.
+func raceExtend(name string, iters int, r *res.Result) (string, string) {
+	sub, err := newSubject(name)
+	if err != nil {
+		return "", "inconclusive: " + err.Error()
+	}
+	defer sub.Close()
+	buf := make([]byte, 64)
+	for i := 0; i < iters; i++ {
+		d := time.Now().Add(300 * time.Microsecond)
+		sub.SetReadDeadline(d)
+		until := d.Add(time.Duration(-10+(i%21)*10) * time.Microsecond)
+		for time.Now().Before(until) {
+		}
+		kind := "an hour ahead"
+		if i%2 == 0 {
+			sub.SetReadDeadline(time.Now().Add(time.Hour))
+		} else {
+			sub.SetReadDeadline(time.Time{})
+			kind = "cleared"
+		}
+		msg := []byte(fmt.Sprintf("x%06d", i))
+		if !sub.Deliver(msg) {
+			return "", "inconclusive: deliver failed in the extend-at-expiry phase"
+		}
+		n, err := sub.Read(buf)
+		r.Count("extend_at_expiry_reads", 1)
+		if err != nil {
+			var ne net.Error
+			if errors.As(err, &ne) && ne.Timeout() {
+				return "rdl:" + name + ":timeout-after-extension", fmt.Sprintf("iteration %d: Read failed with a timeout although the deadline had been set again (%s) before the read was called, right around the expiry of the previous 300us deadline", i, kind)
+			}
+			return "rdl:" + name + ":unexpected-error", fmt.Sprintf("extend-at-expiry iteration %d: Read returned %v", i, err)
+		}
+		if string(buf[:n]) != string(msg) {
+			return "rdl:" + name + ":wrong-data", fmt.Sprintf("extend-at-expiry iteration %d: Read returned %q, expected %q", i, buf[:n], msg)
+		}
+	}
+	// the deadline must still work
+	sub.SetReadDeadline(time.Now().Add(5 * time.Millisecond))
+	done := make(chan error, 1)
+	go func() { _, err := sub.Read(buf); done <- err }()
+	canary := time.After(1500 * time.Millisecond)
+	select {
+	case <-done:
+		return "", ""
+	case <-canary:
+	}
+	for k := 0; k < 3; k++ {
+		if len(gstate.ParkedIn(gstate.Snapshot(), sub.ReadFrame())) == 0 {
+			select {
+			case <-done:
+				return "", ""
+			case <-time.After(5 * time.Second):
+				return "", "inconclusive: read neither returned nor parked after the extend-at-expiry phase"
+			}
+		}
+		time.Sleep(2 * time.Millisecond)
+	}
+	return "rdl:" + name + ":blocked-deadline", "after the extend-at-expiry phase a read with a 5 ms deadline and no data is still parked 1.5 s later (a timer due after the deadline has fired): deadlines are no longer signalled"
 }
